@@ -72,7 +72,7 @@ ASSUMPTIONS = [
 ]
 REQUIRED = {
     "all": {
-        "stiffness_comparisons": 150, "symmetry_checks": 150, "bc:empty": 20, "bc:all_but_one": 20, "bc:random": 40,
+        "stiffness_comparisons": 150, "symmetry_checks": 150, "factory_after_decoy_material_on_same_function_space": 8, "bc:empty": 20, "bc:all_but_one": 20, "bc:random": 40,
         "multi_energy_checks": 6, "multi_stiffness_checks": 6, "multi_state_checks": 2,
         "cmp:dynamics_nonlinear": 12, "cmp:dynamics_linear": 4,
         "cmp:pp_static": 12, "cmp:pp_multi": 4, "cmp:pp_dynamics": 8, "cmp:pp_axisym": 4,
@@ -631,6 +631,24 @@ def run_case(case):
     if mixed:
         # block names (sorted) <-> material list; the dictionary handed to the factory keeps the partition's random key order
         block_spec = {name: k for k, name in enumerate(sorted(blocks))}
+    # the function space has served ANOTHER material before (material study on a shared mesh): functions for a decoy material
+    # are created on the same FunctionSpace object, and its energy is evaluated once, before the factory under test is called
+    rng_d = rng_of(case["seed"] + 7907)
+    if rng_d.random() < 0.5:
+        try:
+            with contextlib.redirect_stdout(io.StringIO()):
+                decoy_mat = cfg.build_material({"name": "lin_linear", "E": float(mat_spec["E"]) * 7.3, "nu": 0.11,
+                                                "density": float(mat_spec.get("density", 1.0)) * 13.0})
+            if factory == "dynamics":
+                Mechanics.create_dynamics_functions(fs, mode, decoy_mat, Mechanics.NewmarkParameters(gamma=case["gamma"], beta=case["beta"]),
+                                                    pressureProjectionDegree=pp).compute_element_masses()
+            else:
+                Fd = Mechanics.create_mechanics_functions(fs, mode, decoy_mat, pressureProjectionDegree=pp)
+                import jax.numpy as _jnp
+                Fd.compute_strain_energy(_jnp.zeros(onp.asarray(fs.mesh.coords).shape), Fd.compute_initial_state(), 0.1)
+            res.count("factory_after_decoy_material_on_same_function_space")
+        except Exception:  # noqa -- the decoy is workload, not a judged call
+            res.count("decoy_material_raised")
     F1 = None
     try:
         if factory == "static":
